@@ -60,9 +60,9 @@ JudgeMeta(ev) ==
                           /\ cl.kl = [p \in 1..n |-> KLast(x.lt, x.rt, x.K, cl.uo, cl.ui, (p - 1) \div x.N, (p - 1) % x.N)]
              pairs == { <<r.clips[q].uo, r.clips[q].ui>> : q \in 1..Len(r.clips) }
              pairsOK == IF Prim(x.T) THEN pairs = ClipParams(x.M, x.N, V, TMasked(isa, x.N, V)) ELSE pairs = { <<1, 1>> }
-         IN /\ (IF ~Prim(x.T) \/ (r.V = V /\ r.simdmask = simd) THEN TRUE ELSE Drift(ev, o, "vector width / masked kernel"))
-            /\ (IF tabsOK THEN TRUE ELSE Drift(ev, o, "find_kfirst / find_klast"))
-            /\ (IF pairsOK THEN TRUE ELSE Drift(ev, o, "unroll pairs"))
+         IN /\ (IF ~Prim(x.T) \/ (r.V = V /\ r.simdmask = simd) THEN TRUE ELSE Drift(ev, o, "V"))
+            /\ (IF tabsOK THEN TRUE ELSE Drift(ev, o, "tab"))
+            /\ (IF pairsOK THEN TRUE ELSE Drift(ev, o, "pairs"))
 
 Init == l = 1
 Next == /\ l <= Len(Tr)
